@@ -262,6 +262,20 @@ namespace
       }
       TupleVector<DV, DVB> v{DV(Index(n1)), DVB(Index(n2))};
       { std::vector<DT> x(size_t(n1 + 2 * n2)); for(size_t i = 0; i < x.size(); ++i) x[i] = DT(xval(Index(i), 12)); set_flat(v, x); }
+      std::shared_ptr<void> tkeep;
+      if((S1 + 2 * S2 + unsigned(op)) % 3 == 2 && (n1 + n2) % 2 == 1)
+      {
+        // convert() from the tuple filter of the other data type
+        typedef typename std::conditional<std::is_same<DT, double>::value, float, double>::type DT2;
+        typedef TupleFilter<UnitFilter<DT2, Index>, UnitFilterBlocked<DT2, Index, 2>> TF2;
+        RUnit rx; RUnitB ry;
+        auto src = std::make_shared<TF2>(make_unit<DT2>(n1, S1, ORD_DESC, rx), make_unitb<DT2, 2>(n2, S2, ORD_ASC, false, 0, ry, 1));
+        tkeep = src;
+        // the target holds OTHER constraints before (complementary sets, other values)
+        { RUnit rq; RUnitB rw; tf = TupleFilter<UF, UB>(make_unit<DT>(n1, ~S1 & ((1u << n1) - 1u), ORD_ASC, rq, 2), make_unitb<DT, 2>(n2, ~S2 & ((1u << n2) - 1u), ORD_ASC, false, 0, rw, 3)); }
+        tf.convert(*src);
+        c.count("cases_on_derived_filters");
+      }
       check_vec(c, kname + " TupleFilter<Unit,UnitBlocked2>", tf, v, op, [&](Ref& r) {
         Ref a{size_t(n1)}, b{size_t(2 * n2)};
         for(int i = 0; i < n1; ++i) a.v[size_t(i)] = r.v[size_t(i)];
